@@ -95,6 +95,22 @@ def run(ctx):
             scenarios.append(sc)
             n_coarse += 1
     ctx.notes["coarse_scenarios"] = n_coarse
+    # decimal learning curves: values are multiples of 0.1 (doubles that are NOT exact), min_delta 0.1-0.3, so the gap between the
+    # best value before and inside the patience window regularly equals min_delta up to rounding: a comparison that is not the
+    # exact floating-point mirror of the other direction's decides differently.  Only pruners that compare and add/subtract
+    # (no interpolation): patient (no wrapped pruner), threshold, successive halving.
+    n_dec = 0
+    for rep in range(6 if ctx.quick else 60):
+        for s, p in (("random", "patient_delta"), ("tpe", "patient_delta"), ("random", "threshold"), ("random", "sha")):
+            sc = c09.make_scenario(ctx.rng, f"md{n_dec}", s, p, 1, ctx.rng.choice([12, 14, 16]), exact=True)
+            sc["prog"]["decimal"] = True
+            sc["prog"]["fail_mod"] = 0
+            sc["prog"]["reports"] = 5
+            sc["min_delta"] = ctx.rng.choice([0.1, 0.2, 0.3])
+            sc["confs"] = flip_confs([ctx.rng.choice(["minimize", "maximize"])])
+            scenarios.append(sc)
+            n_dec += 1
+    ctx.notes["decimal_scenarios"] = n_dec
     c09.execute(scenarios)
     ctx.notes["run_wall_s"] = round(time.time() - t0, 1)
     judge(ctx, scenarios, "mirrored runs")
@@ -103,6 +119,8 @@ def run(ctx):
         "trial number), so negation, quartile interpolation and short sums are exact; thresholds are mirrored exactly",
         "plus 'discrete learning curve' scenarios: integer values (pairwise distinct), where a reported value regularly equals "
         "the interpolated percentile of the other trials",
+        "plus 'decimal learning curve' scenarios (patient with min_delta 0.1-0.3, threshold, successive halving): values are "
+        "multiples of 0.1 as doubles, so additions round - the mirror must still be exact",
         "percentile pruners at 25/50/75 only (other percentiles make numpy's interpolation weights inexact)",
         "WilcoxonPruner: instance-style programs (6-10 steps with the same ids in every trial, scores multiples of 1/65536, "
         "objective = median/max/min/last/mean of the reports), p_threshold in {0.1, 0.2, 0.3} (never equal to an exact "
